@@ -20,6 +20,10 @@ CHECKS = {
             'Bounded symbolic verification: the real GroundTrack (constructor, location, step, overstep) and Mission.gc_distance run on symbolic waypoints/airports and symbolic distances with pyproj replaced by a recording geodesic oracle; z3 decides for all inputs that total length is the sum of the per-segment oracle distances, that the returned position is the oracle forward result from the start waypoint of the segment containing the requested distance by exactly the offset (overstep: continuing the last segment from its own start), that step(a,b) and location(a+b) coincide, that refusals occur only for documented reasons, that azimuths are in [0,360), and that every oracle call uses (lon, lat) order. Counterexamples are replayed with real pyproj against an independent geodesic computation.',
             'pyproj is a trusted oracle (its WGS-84 numerics, antimeridian and polar behaviour are not analysed); 2..3 (thorough 4) waypoints; one operation per path',
             'proxy symbolic execution over a recording oracle + z3 dataflow obligations', 'DESIGN.md#c15'),
+    'C16': ('other',
+            'Bounded symbolic verification of one ground-speed evaluation and of the data selection behind it: the real get_ground_speed runs on symbolic airspeed/heading/altitude/position/wind with sin and cos as values on the unit circle, and z3 (QF_NRA) decides for all inputs: no wind gives TAS, a tailwind along (sin h, cos h) adds, a headwind subtracts, result = vector-sum length within [|TAS-W|, TAS+W], pressure level = ISA pressure of the altitude in hPa, missing wind refused. The real _require_data/_require_main_ds run as an inductive step from any cache state satisfying the cache invariant with symbolic query times: the data used afterwards belong to the query date and hour and the invariant is restored. Counterexamples replay through real xarray on synthetic files.',
+            'sin/cos uninterpreted on the unit circle; interpolation (xarray) and the ISA formula (C12) are declared oracles; one query per step',
+            'proxy symbolic execution + z3 QF_NRA; inductive step over the data cache with symbolic times', 'DESIGN.md#c16'),
     'C17': ('model_checking',
             'Inductive step decided by z3: from a clean builder the real Builder.fly/_iterate_mass/__getattr__/__setattr__ run symbolically with a stub context whose constructor, starting-mass calculation and each mass iteration may raise any documented rejection (symbolic failure point) or succeed with symbolic residuals; obligations per path: builder instance state is exactly the pre-state (so every flight of any history starts from the same state), the exception leaving fly is the injected one, a returned trajectory is the last flown with |residual| < tolerance and carries that iteration\'s masses, otherwise non-convergence is reported. Concrete flight sequences on the real LegacyBuilder are compared bitwise with fresh builders as validation.',
             'context class and phase loop are stubs (their documented rejections are the failure alphabet); state outside the builder instance is not modelled; bit-identity is validated concretely, not decided by the solver',
